@@ -4,9 +4,10 @@ import PlzVerif.Generated.C14
 /-!
 Line-protocol driver for C14 (grammar in harness/cmd/c14/main.go).
   sc <u|c> <d|f> <hexname>                         shouldClean
-  ex <u|c> <high> <low> <found> <marks> <late>            one pass, candidates at least a grace period apart: exact outcome
-  sp <high> <low> <found> <marks> <late> <evicted> <total> the order-free specification evaluated on a real outcome
-     (late = paths marked between the cleaner's walk and its eviction loop)
+  ex <u|c> <high> <low> <found> <marks> <late> <win>            one pass, candidates at least a grace period apart: exact outcome
+  sp <high> <low> <found> <marks> <late> <win> <evicted> <total> the order-free specification evaluated on a real outcome
+     (late = paths marked before the loop tested them; win = paths marked between the loop's test of that very entry and its
+      rename - protected only when the test and the rename happen under one lock: regenerated fact)
   fl <u|c> <k>                                     a one-file store suspended before its k-th operation while the cleaner runs
 -/
 open PlzVerif PlzVerif.Clean PlzVerif.Proto
@@ -65,25 +66,27 @@ def step (line : String) : String :=
       if k ≠ "d" ∧ k ≠ "f" then "bad-op" else
       toString (shouldClean Generated.C14.nameShapes (sfx c) c (k = "d") n)
     | _, _ => "bad-op"
-  | ["ex", m, hi, lo, found, marks, late] =>
-    match parseMode m, hi.toNat?, lo.toNat?, parseFound found, parseMarks marks, parseLate late with
-    | some _, some hi, some lo, some found, some marks, some late =>
+  | ["ex", m, hi, lo, found, marks, late, win] =>
+    match parseMode m, hi.toNat?, lo.toNat?, parseFound found, parseMarks marks, parseLate late, parseLate win with
+    | some _, some hi, some lo, some found, some marks, some late, some win =>
       let mk := marksOf marks
-      let mk' := marksOf (marks ++ late)
+      let mk' := marksOf (marks ++ late ++ (if Generated.C14.testAndRenameUnderLock then win else []))
       let order := sortByAtime (scan mk found).1
       let r := clean mk mk' (fun _ => true) (fun _ => true) hi lo found order
       "evicted=" ++ showPaths r.evicted ++ " total=" ++ toString r.total
-    | _, _, _, _, _, _ => "bad-op"
-  | ["sp", hi, lo, found, marks, late, evicted, total] =>
-    match hi.toNat?, lo.toNat?, parseFound found, parseMarks marks, parseLate late, total.toNat? with
-    | some hi, some lo, some found, some marks, some late, some total =>
+    | _, _, _, _, _, _, _ => "bad-op"
+  | ["sp", hi, lo, found, marks, late, win, evicted, total] =>
+    match hi.toNat?, lo.toNat?, parseFound found, parseMarks marks, parseLate late, parseLate win, total.toNat? with
+    | some hi, some lo, some found, some marks, some late, some win, some total =>
       let ev? : Option (List Entry) :=
         if evicted = "-" then some [] else
         (evicted.splitOn ",").mapM fun h => (natsOfHex h).bind fun p => found.find? (·.path = p)
       match ev? with
       | none => "violated-unknown-entry"
-      | some ev => if specOK (marksOf marks) (marksOf (marks ++ late)) hi lo found ev total then "ok" else "violated"
-    | _, _, _, _, _, _ => "bad-op"
+      | some ev =>
+        let mk' := marksOf (marks ++ late ++ (if Generated.C14.testAndRenameUnderLock then win else []))
+        if specOK (marksOf marks) mk' hi lo found ev total then "ok" else "violated"
+    | _, _, _, _, _, _, _ => "bad-op"
   | ["fl", m, k] =>
     match parseMode m, k.toNat? with
     | some c, some k =>
